@@ -1,0 +1,50 @@
+//go:build verif
+
+package apk
+
+// VerifFilterCandidate describes one package handed to VerifFilterList (build
+// tag verif only): where it lives (its URL is RepoURI/Name-Version.apk), the
+// name of the pinned repository it came from ("" = not pinned) and whether it
+// is in the disqualification map.
+type VerifFilterCandidate struct {
+	Name, Version string
+	Provides      []string
+	RepoURI       string
+	Pinned        string
+	Disqualified  bool
+}
+
+func (c VerifFilterCandidate) pkg() *repositoryPackage {
+	rp := NewRepositoryPackage(&Package{Name: c.Name, Version: c.Version, Provides: c.Provides},
+		&RepositoryWithIndex{Repository: &Repository{URI: c.RepoURI}})
+	return &repositoryPackage{RepositoryPackage: rp, pinnedName: c.Pinned}
+}
+
+// VerifFilterList runs filterPackages over the candidates with the version and
+// operator of the constraint string, the two pins and the installed package
+// (nil = none). It returns the indexes of the candidates that passed, in the
+// order filterPackages returned them, and every candidate's URL.
+func VerifFilterList(cands []VerifFilterCandidate, constraint, allowPin, preferPin string, installed *VerifFilterCandidate) (passed []int, urls []string, installedURL string) {
+	c := ResolvePackageNameVersionPin(constraint)
+	pkgs := make([]*repositoryPackage, len(cands))
+	index := map[*repositoryPackage]int{}
+	dq := map[*RepositoryPackage]string{}
+	for i, cand := range cands {
+		pkgs[i] = cand.pkg()
+		index[pkgs[i]] = i
+		urls = append(urls, pkgs[i].URL())
+		if cand.Disqualified {
+			dq[pkgs[i].RepositoryPackage] = "disqualified by the harness"
+		}
+	}
+	opts := []filterOption{withVersion(c.version, c.dep), withAllowPin(allowPin), withPreferPin(preferPin)}
+	if installed != nil {
+		ip := installed.pkg().RepositoryPackage
+		installedURL = ip.URL()
+		opts = append(opts, withInstalledPackage(ip))
+	}
+	for _, p := range filterPackages(pkgs, dq, opts...) {
+		passed = append(passed, index[p])
+	}
+	return passed, urls, installedURL
+}
